@@ -119,6 +119,33 @@ var assumeOK = []kernelSpec{{"x/mint/types", "", "validateMintDenom"}}
 
 var extraStructs = []kernelSpec{{"x/bet/types", "Constraints", ""}, {"x/mint/types", "Phase", ""}, {"x/ovm/types", "Vote", ""}, {"x/market/types", "Odds", ""}}
 
+// A stateful kernel: a function that reads and writes module state through a keeper.  The state it touches is a record (emitted as
+// S_<name>) and every keeper / context method it may call is mapped to an operation on that record; anything else fails the translation.
+type stateOp struct {
+	kind  string // "get": the field; "set": field := last argument; "add": every field += last argument (infallible, returns nil); "nop"
+	field []string
+}
+type stateField struct{ name, typ string } // typ: a Gallina type ("Z", "G_Minter", ...)
+type statefulSpec struct {
+	pkg, name string // function
+	state     string // Gallina record name suffix
+	fields    []stateField
+	keeperPkg string             // package path (relative) of the Keeper type
+	ops       map[string]stateOp // keeper method -> operation
+	ctxOps    map[string]stateOp // sdk.Context method -> operation
+}
+
+var statefulList = []statefulSpec{{
+	pkg: "x/mint", name: "BeginBlocker", state: "mint",
+	fields:    []stateField{{"Minter", "G_Minter"}, {"Params", "G_Params"}, {"Supply", "Z"}, {"Minted", "Z"}, {"Height", "Z"}},
+	keeperPkg: "x/mint/keeper",
+	ops: map[string]stateOp{
+		"GetMinter": {"get", []string{"Minter"}}, "GetParams": {"get", []string{"Params"}}, "TokenSupply": {"get", []string{"Supply"}},
+		"SetMinter": {"set", []string{"Minter"}}, "MintCoins": {"add", []string{"Supply", "Minted"}}, "AddCollectedFees": {"nop", nil},
+	},
+	ctxOps: map[string]stateOp{"BlockHeight": {"get", []string{"Height"}}},
+}}
+
 type ktrans struct {
 	w       *world
 	structs map[string]*types.Named // Go type name -> named struct (whitelisted receivers)
@@ -253,7 +280,44 @@ type fctx struct {
 	mutating bool
 	results  string // "none" | "err" | "val" | "valerr" | "bool"
 	bad      string
-	loop     []string // inside a range loop: the tuple of variables carried by the fold (innermost last)
+	loop     []string        // inside a range loop: the tuple of variables carried by the fold (innermost last)
+	state    *statefulSpec   // stateful kernel: the state record is the "receiver" g_st
+	nilErr   map[string]bool // error variables known to be nil (result of an infallible state operation)
+}
+
+// stateCall: a keeper / context method of a stateful kernel; returns (expression, statement-effect, ok)
+func (c *fctx) stateOpOf(f *ast.SelectorExpr) (stateOp, bool) {
+	if c.state == nil {
+		return stateOp{}, false
+	}
+	t := c.info.TypeOf(f.X)
+	if isCtx(t) {
+		op, ok := c.state.ctxOps[f.Sel.Name]
+		return op, ok
+	}
+	if n, ok := t.(*types.Named); ok && n.Obj().Name() == "Keeper" && n.Obj().Pkg() != nil && n.Obj().Pkg().Path() == repoModule+"/"+c.state.keeperPkg {
+		op, ok := c.state.ops[f.Sel.Name]
+		return op, ok
+	}
+	return stateOp{}, false
+}
+
+// applyStateOp: the let-bindings performing a set / add / nop operation, followed by rest
+func (c *fctx) applyStateOp(op stateOp, args []string, rest string) string {
+	S := "S_" + c.state.state
+	switch op.kind {
+	case "set":
+		return fmt.Sprintf("let g_st := set_%s_%s g_st %s in\n  %s", S, op.field[0], args[len(args)-1], rest)
+	case "add":
+		out := rest
+		for i := len(op.field) - 1; i >= 0; i-- {
+			out = fmt.Sprintf("let g_st := set_%s_%s g_st (%s_%s g_st + %s) in\n  %s", S, op.field[i], S, op.field[i], args[len(args)-1], out)
+		}
+		return out
+	case "nop":
+		return rest
+	}
+	return c.fail("state operation %s used as a statement", op.kind)
 }
 
 func (c *fctx) fail(format string, a ...any) string {
@@ -368,6 +432,9 @@ func (c *fctx) expr(e ast.Expr) string {
 			if _, ok := c.info.Selections[e]; ok {
 				return fmt.Sprintf("(G_%s_%s %s)", s, e.Sel.Name, c.expr(e.X))
 			}
+		}
+		if isCoin(c.info.TypeOf(e.X)) && e.Sel.Name == "Amount" {
+			return c.expr(e.X)
 		}
 		// package-level constant or variable of another package
 		if obj, ok := c.info.Uses[e.Sel].(*types.Var); ok && obj.Pkg() != nil && obj.Parent() == obj.Pkg().Scope() {
@@ -534,6 +601,12 @@ func (c *fctx) call(e *ast.CallExpr) string {
 			}
 		}
 	case *ast.SelectorExpr:
+		if op, ok := c.stateOpOf(f); ok {
+			if op.kind == "get" {
+				return fmt.Sprintf("(S_%s_%s g_st)", c.state.state, op.field[0])
+			}
+			return c.fail("state operation %s.%s used as a value", op.kind, f.Sel.Name)
+		}
 		// ctx.BlockTime().Unix(): the context IS the block time
 		if f.Sel.Name == "Unix" && len(e.Args) == 0 {
 			if inner, ok := f.X.(*ast.CallExpr); ok {
@@ -554,7 +627,11 @@ func (c *fctx) call(e *ast.CallExpr) string {
 						return "true"
 					}
 				}
-				if path == "github.com/spf13/cast" && (f.Sel.Name == "ToUint64" || f.Sel.Name == "ToInt64") && len(args) == 1 {
+				if path == "github.com/cosmos/cosmos-sdk/types" && f.Sel.Name == "NewCoins" && len(args) == 1 {
+					return args[0] // one coin of the one denomination: its amount
+				}
+				if path == "github.com/spf13/cast" && strings.HasPrefix(f.Sel.Name, "To") && len(args) == 1 && !strings.HasSuffix(f.Sel.Name, "E") &&
+					f.Sel.Name != "ToString" && f.Sel.Name != "ToBool" {
 					return args[0] // convention: the converted value is in range
 				}
 				if path == repoModule+"/utils" && f.Sel.Name == "IsValidUID" && len(args) == 1 {
@@ -804,6 +881,47 @@ func (c *fctx) assignedIn(body *ast.BlockStmt) []string {
 	return out
 }
 
+// skippable: calls that have no effect on the modelled state: telemetry, event emission
+func (c *fctx) skippable(call *ast.CallExpr) bool {
+	f, ok := call.Fun.(*ast.SelectorExpr)
+	if !ok {
+		return false
+	}
+	if id, ok := f.X.(*ast.Ident); ok {
+		if pn, ok := c.info.Uses[id].(*types.PkgName); ok && pn.Imported().Path() == "github.com/cosmos/cosmos-sdk/telemetry" {
+			return true
+		}
+	}
+	// ctx.EventManager().EmitEvent(...) / EmitEvents / EmitTypedEvent
+	if strings.HasPrefix(f.Sel.Name, "Emit") {
+		if inner, ok := f.X.(*ast.CallExpr); ok {
+			if isel, ok := inner.Fun.(*ast.SelectorExpr); ok && isel.Sel.Name == "EventManager" && isCtx(c.info.TypeOf(isel.X)) {
+				return true
+			}
+		}
+	}
+	return false
+}
+
+func (c *fctx) allSkippable(list []ast.Stmt) bool {
+	for _, s := range list {
+		switch x := s.(type) {
+		case *ast.DeferStmt:
+			if !c.skippable(x.Call) {
+				return false
+			}
+		case *ast.ExprStmt:
+			call, ok := x.X.(*ast.CallExpr)
+			if !ok || !c.skippable(call) {
+				return false
+			}
+		default:
+			return false
+		}
+	}
+	return len(list) > 0
+}
+
 // loopOver: the body of a loop as a fold over the list `over` (the element is bound to vname); `after` are the statements that follow
 func (c *fctx) loopOver(lbody *ast.BlockStmt, vname string, over string, after []ast.Stmt) string {
 	var vars []string
@@ -955,6 +1073,19 @@ func (c *fctx) stmts(list []ast.Stmt) string {
 			}
 			return c.fail("if with init statement")
 		}
+		// if err != nil { ... } where err is the result of an infallible state operation: never taken
+		if be, ok := s.Cond.(*ast.BinaryExpr); ok && be.Op == token.NEQ && isNilIdent(be.Y) && s.Init == nil {
+			if id, ok := be.X.(*ast.Ident); ok && c.nilErr[id.Name] {
+				if s.Else != nil {
+					return c.stmts(append([]ast.Stmt{s.Else}, list[1:]...))
+				}
+				return rest()
+			}
+		}
+		// an if whose body only consists of statements that are not modelled (telemetry, events): dropped with its condition
+		if s.Else == nil && s.Init == nil && c.allSkippable(s.Body.List) {
+			return rest()
+		}
 		thenB := c.stmts(append(append([]ast.Stmt{}, s.Body.List...), list[1:]...))
 		var elseB string
 		if s.Else != nil {
@@ -1039,6 +1170,39 @@ func (c *fctx) stmts(list []ast.Stmt) string {
 				return c.assignTo(s.Lhs[0], c.expr(ta.X), c.assignTo(s.Lhs[1], "true", rest()))
 			}
 		}
+		if len(s.Lhs) == 2 && len(s.Rhs) == 1 {
+			// a, b := f(...) where f returns two plain values
+			if tup, ok := c.info.TypeOf(s.Rhs[0]).(*types.Tuple); ok && tup.Len() == 2 && tup.At(1).Type().String() != "error" {
+				a, aok := s.Lhs[0].(*ast.Ident)
+				b, bok := s.Lhs[1].(*ast.Ident)
+				if aok && bok {
+					return fmt.Sprintf("let '(%s, %s) := %s in\n  %s", ident(a.Name), ident(b.Name), c.expr(s.Rhs[0]), rest())
+				}
+			}
+		}
+		// err := k.Op(...) / err = k.Op(...) where Op is an infallible state operation: perform it, remember that err is nil
+		if len(s.Lhs) == 1 && len(s.Rhs) == 1 {
+			if call, ok := s.Rhs[0].(*ast.CallExpr); ok {
+				if f, ok := call.Fun.(*ast.SelectorExpr); ok {
+					if op, ok := c.stateOpOf(f); ok && (op.kind == "add" || op.kind == "nop" || op.kind == "set") {
+						if id, ok := s.Lhs[0].(*ast.Ident); ok && c.info.TypeOf(s.Rhs[0]).String() == "error" {
+							var args []string
+							for _, a := range call.Args {
+								if isCtx(c.info.TypeOf(a)) {
+									continue
+								}
+								args = append(args, c.expr(a))
+							}
+							if c.nilErr == nil {
+								c.nilErr = map[string]bool{}
+							}
+							c.nilErr[id.Name] = true
+							return c.applyStateOp(op, args, rest())
+						}
+					}
+				}
+			}
+		}
 		if len(s.Lhs) == 2 && len(s.Rhs) == 1 && len(list) >= 2 {
 			if e2, ok := s.Lhs[1].(*ast.Ident); ok && e2.Name == "err" {
 				if ifs, ok := list[1].(*ast.IfStmt); ok && ifs.Init == nil && ifs.Else == nil {
@@ -1075,9 +1239,32 @@ func (c *fctx) stmts(list []ast.Stmt) string {
 			op = "-"
 		}
 		return c.assignTo(s.X, fmt.Sprintf("(%s %s 1)", c.expr(s.X), op), rest())
+	case *ast.DeferStmt:
+		if c.skippable(s.Call) {
+			return rest()
+		}
+		return c.fail("defer statement")
 	case *ast.ExprStmt:
 		// a call of a whitelisted mutating method on a whitelisted struct variable
 		if call, ok := s.X.(*ast.CallExpr); ok {
+			if c.skippable(call) {
+				return rest()
+			}
+			if f, ok := call.Fun.(*ast.SelectorExpr); ok {
+				if op, ok := c.stateOpOf(f); ok && op.kind != "get" {
+					var args []string
+					for _, a := range call.Args {
+						if isCtx(c.info.TypeOf(a)) {
+							continue
+						}
+						args = append(args, c.expr(a))
+					}
+					return c.applyStateOp(op, args, rest())
+				}
+			}
+			if id, ok := call.Fun.(*ast.Ident); ok && id.Name == "panic" {
+				return c.fail("panic statement")
+			}
 			if f, ok := call.Fun.(*ast.SelectorExpr); ok {
 				if id, ok := f.X.(*ast.Ident); ok {
 					fnObj, _ := c.info.Uses[f.Sel].(*types.Func)
@@ -1350,6 +1537,52 @@ func analyseKernels(w *world) string {
 			continue
 		}
 		fmt.Fprintf(b, "(* %s %s *)\nDefinition %s %s :=\n  %s.\n\n", w.relFile(d.Pos()), it.spec.name, gname, strings.Join(params, " "), body)
+	}
+	// stateful kernels
+	for i := range statefulList {
+		sp := &statefulList[i]
+		S := "S_" + sp.state
+		var fs, names []string
+		for _, f := range sp.fields {
+			fs = append(fs, fmt.Sprintf("%s_%s : %s", S, f.name, f.typ))
+			names = append(names, f.name)
+		}
+		fmt.Fprintf(b, "(* the state %s.%s reads and writes through its keeper and context *)\nRecord %s := { %s }.\n", sp.pkg, sp.name, S, strings.Join(fs, "; "))
+		for _, fn := range names {
+			var parts []string
+			for _, g := range names {
+				if g == fn {
+					parts = append(parts, fmt.Sprintf("%s_%s := v", S, g))
+				} else {
+					parts = append(parts, fmt.Sprintf("%s_%s := %s_%s r", S, g, S, g))
+				}
+			}
+			fmt.Fprintf(b, "Definition set_%s_%s (r : %s) (v : _) : %s := {| %s |}.\n", S, fn, S, S, strings.Join(parts, "; "))
+		}
+		gname := fmt.Sprintf("K_%s_%s", sp.state, sp.name)
+		p := w.all[repoModule+"/"+sp.pkg]
+		var fn *types.Func
+		if p != nil {
+			fn, _ = p.Types.Scope().Lookup(sp.name).(*types.Func)
+		}
+		if fn == nil || w.decls[fn] == nil {
+			k.errs = append(k.errs, "stateful function not found: "+sp.name)
+			fmt.Fprintf(b, "(* %s: NOT FOUND in the source *)\nDefinition %s : unit := tt.\n\n", gname, gname)
+			continue
+		}
+		fd := w.decls[fn]
+		c := &fctx{k: k, info: fd.pkg.TypesInfo, pkg: fd.pkg, recvName: "st", mutating: true, results: "none", state: sp}
+		if fn.Type().(*types.Signature).Results().Len() != 0 {
+			c.fail("a stateful kernel must not return a value")
+		}
+		body := c.stmts(fd.decl.Body.List)
+		pos := w.fset.Position(fd.decl.Pos())
+		if c.bad != "" {
+			k.errs = append(k.errs, fmt.Sprintf("%s: %s", sp.name, c.bad))
+			fmt.Fprintf(b, "(* %s (%s:%d): UNTRANSLATABLE: %s *)\nDefinition %s : unit := tt.\n\n", gname, w.relFile(fd.decl.Pos()), pos.Line, c.bad, gname)
+			continue
+		}
+		fmt.Fprintf(b, "(* %s %s *)\nDefinition %s (g_st : %s) : %s :=\n  %s.\n\n", w.relFile(fd.decl.Pos()), sp.name, gname, S, S, body)
 	}
 	sort.Strings(k.errs)
 	for _, e := range k.errs {
